@@ -294,8 +294,9 @@ class AstToSqlVisitor(visitor.NodeVisitor):
         Transform a node into a pattern usable in `LIKE` clauses.
         :meta private:
         """
-        if isinstance(arg, (ast.Identifier, ast.Call)):
-            res = self.visit(arg)
+        if not isinstance(arg, ast._Literal) or isinstance(arg, ast.List):
+            # Any expression: concatenate the wildcards around its value.
+            res = self._visit_operand(arg, _PREC_ADDITIVE, or_equal=True)
             if prefix:
                 res = f"'{prefix}' || " + res
             if suffix:
